@@ -155,6 +155,7 @@ class Config:
         self.transactions = True
         self.placeholders = True
         self.returning = True
+        self.wide_lists = True
         for k, v in kw.items():
             if not hasattr(self, k):
                 raise TypeError(k)
@@ -645,6 +646,9 @@ class Gen:
         else:
             n = 1 if scalar and rng.random() < 0.6 else rng.choice(
                 [1, 1, 2, 2, 3, 4])
+            if top and cfg.wide_lists and rng.random() < 0.012:
+                n = rng.choice([90, 120, 260])     # size thresholds
+                depth = 0
             items = []
             for k in range(n):
                 if k:
@@ -719,7 +723,12 @@ class Gen:
         rng = self.rng
         self.select_core(depth, top=True)
         if self.cfg.setops and rng.random() < 0.12:
-            self.kw(rng.choice(['UNION', 'UNION ALL', 'EXCEPT']))
+            op = rng.choice(['UNION', 'UNION ALL', 'EXCEPT', 'EXCEPT ALL'])
+            if op == 'EXCEPT ALL':
+                self.kw('EXCEPT')      # two keywords for the lexer
+                self.kw('ALL')
+            else:
+                self.kw(op)
             self.select_core(max(depth - 1, 0), top=True)
             self.s.features.add('setop')
 
